@@ -218,9 +218,9 @@ class C12(runner.Check):
 		"simulated": ["numba work-sharing runtime in leg sim"],
 	}
 	tiers = {
-		"quick": {"legs": [("sim", 160), ("real", 400)], "wall_cap_s": 900,
-			"fresh_procs": 4, "chunk": 5},
-		"thorough": {"legs": [("sim", 6000), ("real", 40000)], "wall_cap_s": 5400,
+		"quick": {"legs": [("sim", 320), ("real", 800)], "wall_cap_s": 900,
+			"fresh_procs": 6, "chunk": 5},
+		"thorough": {"legs": [("sim", 12000), ("real", 80000)], "wall_cap_s": 5400,
 			"fresh_procs": 12, "chunk": 20},
 	}
 
